@@ -66,6 +66,19 @@ def observables(obj):
         core = obj.polyhedron
     if name == "ConvexSpheropolygon":
         core = obj.polygon
+    if core is not obj:
+        # the core of a spheropolytope is public (.polygon / .polyhedron): its own measures must follow every operation too
+        for m in ("centroid", "area", "perimeter", "volume", "surface_area", "signed_area", "inertia_tensor", "planar_moments_inertia"):
+            if hasattr(type(core), m):
+                try:
+                    out[f"core.{m}"] = np.asarray(getattr(core, m), dtype=float)
+                except (NotImplementedError, RuntimeError, ValueError) as e:
+                    out[f"core.{m}"] = f"raises {type(e).__name__}"
+    if hasattr(type(obj), "distance_to_surface"):
+        try:
+            out["distance_to_surface"] = np.asarray(obj.distance_to_surface(np.array([0.0, 0.7, 1.9, 3.3, 4.4, 5.9])), dtype=float)
+        except (NotImplementedError, RuntimeError, ValueError) as e:
+            out["distance_to_surface"] = f"raises {type(e).__name__}"
     if hasattr(core, "faces") and hasattr(core, "_equations"):
         eqs = {}
         for f, e in zip(core.faces, core._equations):
@@ -224,6 +237,10 @@ def run_sequence(cls_name, variant, seq_names):
     ch0 = chirality(obj)
     ops = operations(obj)
     done = []
+    try:
+        observables(obj)          # a first read of everything: memoised values exist before the first operation
+    except Exception:  # noqa: BLE001
+        pass
     for nm in seq_names:
         op = ops[nm]
         try:
@@ -261,7 +278,7 @@ def _core_alphabet(names):
     return keep
 
 
-def run_bounded(chk, depth=None):
+def run_bounded(chk, depth=None, only_setters=False):
     depth = depth or (2 if chk.bounded_tier == "quick" else 3)
     fkey = "history explorer over the public mutators of the six vertex-based classes"
     chk.functions.setdefault(fkey, {"sha": "-", "paths": 0, "lines": 0, "bounded_only": True})
@@ -274,7 +291,7 @@ def run_bounded(chk, depth=None):
         for variant in (0, 1):
             names = sorted(operations(stock_real(cls_name, variant)))
             # depth-1 exhaustively, depth-2 exhaustively over a reduced alphabet in the quick tier
-            alphabet = names
+            alphabet = [a for a in names if not a.endswith("()")] if only_setters else names
             seqs = [(a,) for a in alphabet]
             if depth >= 2:
                 red = _core_alphabet(alphabet) if chk.bounded_tier == "quick" else alphabet
